@@ -139,7 +139,7 @@ def fieldGetType (s : VState) (attr : Option Nat) (site : String) : Except Crash
       | .fixed _ _ | .dyn => pure "string"
       | .object _ _ ref =>
         match ref with
-        | .none => throw (.nilDeref (site ++ ": RefPacket"))
+        | .none => pure (match a with | .object _ pkt _ => pkt | _ => "")
         | .named n => pure n
         | .inline pid => pure ((s.ipackets[pid]?.map (·.name)).getD "")
       | .match_ _ _ _ => pure "match"
@@ -176,7 +176,7 @@ def optionValues : String → Option (List String)
   | "StringPrefixLenType" | "ArrayPrefixLenType" => some ["u8", "u16", "u32", "u64"]
   | "LittleEndian" | "FixedStringPadFromLeft" => some ["true", "false"]
   | "JavaPackage" | "GoPackage" | "GoModule" => some []
-  | "FixedStringPadChar" => some ["'0'", "' '", "'\x00'"]
+  | "FixedStringPadChar" => some ["'0'", "' '", "'\x00'", "'\\x00'"]
   | _ => none
 
 /-- `AddOption` as a state function -/
@@ -222,6 +222,19 @@ partial def visitFieldDef (fd : FieldDef) : V MField :=
       pure { name, attr := some a, rep := rep.isSome, line := (rep.getD ft).line }
   | .iner rep name _ fields _ _ => do
     let subs ← fields.mapM visitFieldDef
+    -- match fields and length fields inside the inline object
+    for (f, fd) in subs.zip fields do
+      let s ← get
+      match f.attr.bind (s.attrs[·]?), f.attr with
+      | some (.match_ (some k) _ pairs), some ai =>
+        match subs.reverse.find? (·.name = k) with
+        | some kf => modify fun s => { s with attrs := s.attrs.set! ai (.match_ (some k) kf.attr.isSome pairs) }
+        | none => addDiag fd.start.line ("Unknown key field " ++ k ++ " for match field " ++ f.name)
+      | _, _ => pure ()
+      let s ← get
+      match f.attr.bind (s.attrs[·]?) with
+      | some (.length _ _) => addDiag fd.start.line "LengthOfField can only be declared in the root packet"
+      | _ => pure ()
     let s ← get
     let pid := s.ipackets.size
     set { s with ipackets := s.ipackets.push { name := name.text, root := false, fields := subs, line := (rep.getD name).line } }
@@ -254,7 +267,12 @@ partial def visitFieldDef (fd : FieldDef) : V MField :=
     let doc := match d.doc with | some t => String.ofList ((t.text.toList.drop 1).dropLast) | none => ""
     pure { name := d.name.text, attr := some a, rep := rep.isSome, doc, line := d.ty.start.line }
   | .match_ d _ => do
-    -- the duplicate-key set is never filled, so no diagnostic can come out of this loop
+    -- every key that occurred before is reported at its own line (the pair is kept all the same)
+    let _ ← (pairsOfMatch d).foldlM (fun (seen : List String) pr => do
+      if seen.contains pr.key then
+        addDiag pr.line ("Duplicate match key: " ++ pr.key)
+        pure seen
+      else pure (pr.key :: seen)) []
     let a ← newAttr (.match_ (some d.key.text) false (pairsOfMatch d))
     pure { name := d.name.text, attr := some a }
 
@@ -274,15 +292,15 @@ def visitFieldWA (f : FieldWA) : V MField := do
     | .pad kw _ ch _ => do
       let padChar := match ch with | some c => (if c.text = "'\\x00'" then "'\x00'" else c.text) | none => "' '"
       let s ← get
-      match fld.attr with
-      | none => throw (.assert "padding attribute on nil attr")
-      | some i =>
-        match s.attrs[i]? with
-        | some (.fixed n _) => do
-          let p ← newPad { ch := padChar, left := (kw.text.splitOn "left").length > 1 }
-          modify fun s => { s with attrs := s.attrs.set! i (.fixed n (some p)) }
-          pure fld
-        | _ => throw (.assert "padding attribute on a non-fixed-string field")
+      match fld.attr.bind (s.attrs[·]?) with
+      | some (.fixed n _) => do
+        -- the field gets its own copy of the attribute object
+        let p ← newPad { ch := padChar, left := (kw.text.splitOn "left").length > 1 }
+        let na ← newAttr (.fixed n (some p))
+        pure { fld with attr := some na }
+      | _ => do
+        addDiag kw.line ("Padding attribute is only allowed on char[n] fields, not on field " ++ fld.name)
+        pure fld
     | .tag _ n _ => pure { fld with tag := atoi n.text }) fld
 
 def setField (fs : List MField) (i : Nat) (f : MField) : List MField := fs.set i f
@@ -290,34 +308,54 @@ def setField (fs : List MField) (i : Nat) (f : MField) : List MField := fs.set i
 /-- `VisitPacketDefinition` -/
 def visitPacketDef (p : PacketDef) : V MPacket := do
   let isRoot := p.root.isSome
-  -- first loop: visit, length-field checks, fields / fieldMap / matchFields
-  let (fields, fieldMap, lengthIdx, matchFields) ← p.fields.foldlM
-    (fun (acc : List MField × List String × Option Nat × List (String × List MPair)) fwa => do
-      let (fields, fmap, lenIdx, mfs) := acc
+  let pname := p.name.text
+  -- first loop: visit, length-field checks, duplicate check, fields / fieldMap / matchFields
+  -- `lenF` = the Go `lengthField` pointer: the field and, when it is in `fields`, its position
+  let (fields, lines, lenF, matchFields) ← p.fields.foldlM
+    (fun (acc : List MField × List Nat × Option (MField × Option Nat) × List (String × List MPair)) fwa => do
+      let (fields, lines, lenF, mfs) := acc
       let fld ← visitFieldWA fwa
       let s ← get
       let isLen := match fld.attr.bind (s.attrs[·]?) with | some (.length _ _) => true | _ => false
       if isLen && !isRoot then
         addDiag fwa.start.line "LengthOfField can only be declared in the root packet"
         pure acc
-      else if isLen && lenIdx.isSome then
+      else if isLen && lenF.isSome then
         addDiag fwa.start.line "Duplicate LengthOfField declaration"
         pure acc
       else
-        let lenIdx := if isLen then some fields.length else lenIdx
-        let mfs := match fld.attr.bind (s.attrs[·]?) with
-          | some (.match_ (some k) _ pairs) => (mfs.filter (·.1 ≠ k)) ++ [(k, pairs)]
-          | _ => mfs
-        pure (fields ++ [fld], (fmap.filter (· ≠ fld.name)) ++ [fld.name], lenIdx, mfs))
+        let dup := fields.any (·.name = fld.name)
+        let lenF := if isLen then some (fld, if dup then none else some fields.length) else lenF
+        if dup then
+          addDiag fwa.start.line ("Duplicate field definition for " ++ fld.name ++ " in packet " ++ pname)
+          pure (fields, lines, lenF, mfs)
+        else
+          let mfs := match fld.attr.bind (s.attrs[·]?) with
+            | some (.match_ (some k) _ pairs) => (mfs.filter (·.1 ≠ k)) ++ [(k, pairs)]
+            | _ => mfs
+          pure (fields ++ [fld], lines ++ [fwa.start.line], lenF, mfs))
     ([], [], none, [])
+  let fieldMap := fields.map (·.name)
+  -- the length field's target must exist
+  let lenF ← match lenF with
+    | some (lf, li) => do
+      let s ← get
+      match lf.attr.bind (s.attrs[·]?) with
+      | some (.length _ (some tname)) =>
+        if fieldMap.contains tname then pure lenF
+        else do
+          addDiag (match li with | some i => lines.getD i 0 | none => 0) ("Unknown field " ++ tname ++ " for @lengthOf of field " ++ lf.name)
+          pure none
+      | _ => pure lenF
+    | none => pure none
   -- second loop, over the field pointers
   let fieldsArr ← (List.range fields.length).foldlM (fun (fs : List MField) i => do
     let f := fs[i]!
     let s ← get
-    -- `lengthField.Attr.(*LengthFieldAttribute).TragetField.Name`
-    let fs ← match lengthIdx with
-      | some li =>
-        let lf := fs[li]!
+    let fs ← match lenF with
+      | some (lf0, li) =>
+        -- the current state of the length field object
+        let lf := match li with | some j => fs[j]! | none => lf0
         match lf.attr.bind (s.attrs[·]?) with
         | some (.length _ tgt) =>
           match tgt with
@@ -325,7 +363,7 @@ def visitPacketDef (p : PacketDef) : V MPacket := do
           | some tname =>
             if f.name = tname then do
               let lo ← newAttr (.lengthOf lf.name)
-              let fs := setField fs li { fs[li]! with lenAttr := some lo }
+              let fs := match li with | some j => setField fs j { fs[j]! with lenAttr := some lo } | none => fs
               pure (setField fs i { fs[i]! with lenAttr := lf.attr })
             else pure fs
         | _ => throw (.assert "lengthField.Attr.(*LengthFieldAttribute)")
@@ -334,26 +372,24 @@ def visitPacketDef (p : PacketDef) : V MPacket := do
     let s ← get
     match f.attr.bind (s.attrs[·]?), f.attr with
     | some (.object false pkt _), some ai =>
-      -- `c.RefPacket = v.BinModel.PacketsMap[c.PacketName]` (nil when not declared yet)
       let ref := if s.packets.any (·.name = pkt) then RefP.named pkt else RefP.none
       modify fun s => { s with attrs := s.attrs.set! ai (.object false pkt ref) }
       pure fs
     | some (.length _ (some tname)), some _ => do
       let t ← fieldGetType s f.attr "LengthType: f.GetType()"
-      -- `fieldMap[c.TragetField.Name]`: the last field with that name, nil when there is none
       let tgt := if fieldMap.contains tname then some tname else none
       let na ← newAttr (.length t tgt)
       pure (setField fs i { f with attr := some na })
     | some (.match_ (some k) _ pairs), some ai =>
-      -- `c.MatchKeyField = fieldMap[c.MatchKeyField.Name]`
-      let resolved := fs.reverse.find? (·.name = k)
-      let a' := match resolved with
-        | some kf => AttrK.match_ (some k) kf.attr.isSome pairs
-        | none => AttrK.match_ none false pairs
-      modify fun s => { s with attrs := s.attrs.set! ai a' }
-      pure fs
+      match fs.find? (·.name = k) with
+      | some kf =>
+        modify fun s => { s with attrs := s.attrs.set! ai (.match_ (some k) kf.attr.isSome pairs) }
+        pure fs
+      | none => do
+        addDiag (lines.getD i 0) ("Unknown key field " ++ k ++ " for match field " ++ f.name)
+        pure fs
     | _, _ => pure fs) fields
-  pure { name := p.name.text, root := isRoot, lengthField := lengthIdx.map fun i => fieldsArr[i]!.name,
+  pure { name := pname, root := isRoot, lengthField := lenF.map fun (lf, _) => lf.name,
          fields := fieldsArr, fieldMap := fieldMap, matchFields := matchFields, line := p.start.line }
 
 /-- `AddPacket` as a state function -/
@@ -368,18 +404,69 @@ def addPacketS (p : MPacket) (s : VState) : VState :=
 
 def addPacket (p : MPacket) : V Unit := modify (addPacketS p)
 
-/-- `ResolveDependencies` (top-level fields only) -/
+/-- `resolveFields`: packet references (inline objects included) and match targets -/
+partial def resolveFields (fields : List MField) : V Unit := do
+  for f in fields do
+    let s ← get
+    match f.attr.bind (s.attrs[·]?), f.attr with
+    | some (.object iner pkt .none), some ai =>
+      if s.packets.any (·.name = pkt) then
+        modify fun s => { s with attrs := s.attrs.set! ai (.object iner pkt (.named pkt)) }
+      else addDiag f.line ("Unknown packet type " ++ pkt ++ " for field " ++ f.name)
+    | some (.object true _ (.inline pid)), _ =>
+      match s.ipackets[pid]? with
+      | some ip => resolveFields ip.fields
+      | none => pure ()
+    | some (.match_ _ _ pairs), _ =>
+      for pr in pairs do
+        let s ← get
+        if !(s.packets.any (·.name = pr.value)) then
+          addDiag pr.line ("Unknown packet type " ++ pr.value ++ " for match key " ++ pr.key ++ " of field " ++ f.name)
+    | _, _ => pure ()
+
+/-- `checkRecursion`: depth-first search over packet references; the first back edge is reported -/
+structure RecSt where
+  grey : List String := []
+  black : List String := []
+  report : Option (Nat × String) := none
+
+partial def recVisit (s : VState) (pname : String) (fields : List MField) (st : RecSt) : RecSt :=
+  fields.foldl (fun st f =>
+    let (st, next) : RecSt × List String := match f.attr.bind (s.attrs[·]?) with
+      | some (.object true _ (.inline pid)) =>
+        (match s.ipackets[pid]? with | some ip => recVisit s pname ip.fields st | none => st, [])
+      | some (.object false _ (.named q)) => (st, [q])
+      | some (.match_ _ _ pairs) => (st, (pairs.map (·.value)).filter fun q => s.packets.any (·.name = q))
+      | _ => (st, [])
+    next.foldl (fun st q =>
+      if st.black.contains q then st
+      else if st.grey.contains q then
+        (if st.report.isSome then st else
+          { st with report := some (f.line, "Recursive packet reference: field " ++ f.name ++ " of packet " ++ pname ++ " leads back to packet " ++ q) })
+      else
+        match s.packets.find? (·.name = q) with
+        | some qp =>
+          let st := recVisit s q qp.fields { st with grey := q :: st.grey }
+          { st with black := q :: st.black }
+        | none => st) st) st
+
+def checkRecursion : V Unit := do
+  let s ← get
+  let st := s.packets.foldl (fun (st : RecSt) p =>
+    if st.black.contains p.name || st.grey.contains p.name then st
+    else
+      let st := recVisit s p.name p.fields { st with grey := p.name :: st.grey }
+      { st with black := p.name :: st.black }) {}
+  match st.report with
+  | some (line, msg) => addDiag line msg
+  | none => pure ()
+
+/-- `ResolveDependencies` -/
 def resolveDeps : V Unit := do
   let s ← get
   for p in s.packets do
-    for f in p.fields do
-      let s ← get
-      match f.attr.bind (s.attrs[·]?), f.attr with
-      | some (.object iner pkt .none), some ai =>
-        if s.packets.any (·.name = pkt) then
-          modify fun s => { s with attrs := s.attrs.set! ai (.object iner pkt (.named pkt)) }
-        else addDiag f.line ("Unknown packet type " ++ pkt ++ " for field " ++ f.name)
-      | _, _ => pure ()
+    resolveFields p.fields
+  checkRecursion
 
 /-- `VisitPacket` -/
 def visitCst (c : Cst) : V Unit := do
@@ -391,15 +478,11 @@ def visitCst (c : Cst) : V Unit := do
         match e with
         | .decl d =>
           let a ← tyAttr d.ty
-          match d.doc with
-          | none => throw (.nilDeref "metaDataDeclarationToMetaData: STRING_LITERAL()")
-          | some doc => addMeta { name := d.name.text, attr := some a, desc := doc.text, line := d.ty.start.line }
+          addMeta { name := d.name.text, attr := some a, desc := docOf d.doc, line := d.ty.start.line }
         | .ref r =>
           let s ← get
           let attr := (findMeta s r.typ.text).bind (·.attr)
-          match r.doc with
-          | none => throw (.nilDeref "VisitRefMetaDataDeclaration: STRING_LITERAL()")
-          | some doc => addMeta { name := r.name.text, attr, desc := doc.text, line := r.typ.line }
+          addMeta { name := r.name.text, attr, desc := docOf r.doc, line := r.typ.line }
     | _ => pure ()
   -- options
   for d in c.defs do
